@@ -95,6 +95,7 @@ static int cmd_run(int argc, char** argv) {
   bool hashes = flag(argc, argv, "--loghashes"), isolate = flag(argc, argv, "--isolate");
   double budget_s = std::stod(arg(argc, argv, "--time-budget", "0"));
   model::init();
+  start_solo_server();
   std::map<std::string, std::string> expmap;
   if (!expect.empty()) {
     std::ifstream f(expect);
@@ -214,6 +215,7 @@ static int cmd_run(int argc, char** argv) {
   js << "]}";
   printf("STATS %s\n", js.str().c_str());
   fflush(stdout);
+  stop_solo_server();
   return nmach ? 2 : (nviol ? 1 : 0);
 }
 
@@ -236,6 +238,7 @@ static int cmd_replay(int argc, char** argv) {
   model::init();
   Plan p = Plan::parse(read_file(argv[2]));
   settings_from_plan(p);
+  start_solo_server();
   RunOpts ro = opts_for(p);
   ro.collect_log = true;
   RunResult res = flag(argc, argv, "--inprocess") ? run_plan(p, ro, nullptr) : run_plan_isolated(p, ro, nullptr);
@@ -260,6 +263,7 @@ static int cmd_shrink(int argc, char** argv) {
   model::init();
   Plan p = Plan::parse(read_file(argv[2]));
   settings_from_plan(p);
+  start_solo_server();
   std::string clause = arg(argc, argv, "--clause", p.clause.c_str()), out = arg(argc, argv, "--out", "min.plan");
   int reruns = 0;
   size_t before = p.nops();
@@ -282,6 +286,42 @@ static int cmd_shrink(int argc, char** argv) {
   std::ofstream f(out);
   f << q.text();
   printf("SHRUNK ops %zu -> %zu, tasks %zu -> %zu, reruns %d, out=%s\n", before, q.nops(), p.tasks.size(), q.tasks.size(), reruns, out.c_str());
+  return 0;
+}
+
+// the call history of one worker process as ONE sequential plan: runs a,b,c,... flattened in execution order. Used when
+// a violation or crash does not reproduce from its own run alone, i.e. when it depends on earlier calls in the process.
+static int cmd_concat(int argc, char** argv) {
+  model::init();
+  std::string prop = arg(argc, argv, "--prop"), tier = arg(argc, argv, "--tier", "quick"), out = arg(argc, argv, "--out", "history.plan");
+  uint64_t seed = std::stoull(arg(argc, argv, "--seed", "1"));
+  Plan h;
+  h.prop = prop;
+  h.tier = tier;
+  h.seed = seed;
+  h.variant = G.variant;
+  h.tasks.resize(1);
+  h.meta["history"] = "1";
+  std::istringstream is(arg(argc, argv, "--runs"));
+  std::string tok;
+  uint64_t last = 0;
+  while (std::getline(is, tok, ',')) {
+    if (tok.empty())
+      continue;
+    last = std::stoull(tok);
+    Plan p = gen_plan(prop, tier, seed, last);
+    for (auto& kv : p.meta)
+      if (kv.first != "pct_d")
+        h.meta[kv.first] = kv.second;
+    for (auto& t : p.tasks)
+      for (auto& c : t)
+        h.tasks[0].push_back(c);
+  }
+  h.run = last;
+  h.preempt.resize(1);
+  std::ofstream f(out);
+  f << h.text();
+  printf("HISTORY ops=%zu out=%s\n", h.nops(), out.c_str());
   return 0;
 }
 
@@ -308,6 +348,8 @@ int main(int argc, char** argv) {
     return cmd_shrink(argc, argv);
   if (cmd == "dump")
     return cmd_dump(argc, argv);
+  if (cmd == "concat")
+    return cmd_concat(argc, argv);
   if (cmd == "runs") {
     printf("%llu\n", (unsigned long long)default_runs(arg(argc, argv, "--prop"), arg(argc, argv, "--tier", "quick")));
     return 0;
